@@ -48,8 +48,11 @@ def value_spec(m):
     # (a constructor that pairs a member with a foreign kind is reported by TS-sync on that constructor's exit)
     if len(confirmed) < 4:
         raise AnalysisBroken("Value: fewer than 4 member<->kind pairs confirmed by the constructors")
-    return Spec("Qentem::Value", "Qentem::ValueType", kinds, members, own, {"Type"}, preds, setters, "setType", "reset",
-                entry_zero=["copyValue"])
+    sp = Spec("Qentem::Value", "Qentem::ValueType", kinds, members, own, {"Type"}, preds, setters, "setType", "reset",
+              entry_zero=["copyValue"])
+    # the numeric views of number_ and the kinds they represent (from the numeric constructors / setters)
+    sp.subfields = {"number_": {"Natural": frozenset(["UIntLong"]), "Integer": frozenset(["IntLong"]), "Real": frozenset(["Double"])}}
+    return sp
 
 
 def initial_for(f, spec):
@@ -80,6 +83,8 @@ def run_class(ctx, m, spec, rule_t1, rule_tx, entry_zero=(), suppress=()):
                     continue
                 tx_seen.add((f.sig, recv))
                 rule_tx.ob(f.sig, "exit state of `%s`" % recv, ok, why, f.loc(nid))
+            elif rule == "T1s":
+                rule_t1.ob(f.sig, f.text(nid), ok, why, f.loc(nid), {"receiver": key.split("#")[0]})
             elif rule in ("TR", "TE"):
                 rule_tx.ob(f.sig, f.text(nid), ok, why, f.loc(nid))
             else:
